@@ -32,7 +32,9 @@ pub fn bind_analyze(binder: &mut FlowBinder, chunk: LuaChunk) -> Option<()> {
 
 fn bind_block(binder: &mut FlowBinder, block: LuaBlock, current: FlowId) -> FlowId {
     let mut return_flow_id = current;
-    let mut can_change_flow = true;
+    // A block entered from unreachable code stays unreachable: its statements must not start a new
+    // flow (a `break` behind them would otherwise add an edge to the loop exit).
+    let mut can_change_flow = current != binder.unreachable;
     for node in block.children::<LuaAst>() {
         let node_flow_id = bind_node(binder, node, return_flow_id);
         if can_change_flow {
